@@ -475,8 +475,11 @@ theorem good_lexGood : ∀ (cs : List Chunk) (prev : Option Kind), goodFrom prev
           simp only [Bool.and_eq_true, Bool.not_eq_true', List.isEmpty_eq_false_iff] at hcond
           exact hcond.1
         | opn =>
-          simp only [Bool.and_eq_true, decide_eq_true_eq] at hcond
-          exact countNL_pos_ne_nil hcond.1
+          simp only [Bool.and_eq_true, Bool.or_eq_true, decide_eq_true_eq, Bool.not_eq_true',
+            List.isEmpty_eq_false_iff] at hcond
+          rcases hcond.1 with h | h
+          · exact countNL_pos_ne_nil h
+          · exact h.2
         | cls =>
           simp only [Bool.and_eq_true, decide_eq_true_eq] at hcond
           exact countNL_pos_ne_nil hcond.1
@@ -543,7 +546,8 @@ theorem canonSep_all_ws (prev : Option Kind) (N : Nat) (c : Chunk) : (canonSep p
 theorem canonSep_props {prev : Option Kind} {N : Nat} {c : Chunk} {cs : List Chunk}
     (hg : goodFrom prev (c :: cs) = true) :
     (canonSep prev N c).all wsCh = true ∧
-      (prev ≠ none → canonSep prev N c ≠ [] ∧ (0 < countNL (canonSep prev N c) ↔ 0 < c.nl)) ∧
+      (prev ≠ none → canonSep prev N c ≠ [] ∧
+        ((prev = some .opn ∧ c.kind = .cmt) ∨ (0 < countNL (canonSep prev N c) ↔ 0 < c.nl))) ∧
       (prev = none → canonSep prev N c = [] ∧ c.nl = 0) ∧
       (prev = some .cmt → (canonSep prev N c).head? = some rNL) := by
   simp only [goodFrom, Bool.and_eq_true] at hg
@@ -554,80 +558,89 @@ theorem canonSep_props {prev : Option Kind} {N : Nat} {c : Chunk} {cs : List Chu
     exact ⟨rfl, fun h => absurd rfl h, fun _ => ⟨rfl, by simp [Chunk.nl, hcond.1, countNL]⟩, fun h => by cases h⟩
   | some k =>
     refine ⟨canonSep_all_ws _ _ _, fun _ => ?_, fun h => absurd h (by simp), fun hk => ?_⟩
-    · -- non-empty, and newline iff newline
-      have hplainlike : ∀ (bl : List Rune) (hbl : countNL bl = 0) (hsome : c.nl = 0 ∨ 0 < c.nl),
-          (if c.nl = 0 then [rSP] else bl ++ (nlsN (min c.nl 2) ++ tabsN N)) ≠ [] ∧
-          (0 < countNL (if c.nl = 0 then [rSP] else bl ++ (nlsN (min c.nl 2) ++ tabsN N)) ↔ 0 < c.nl) := by
-        intro bl hbl _
-        by_cases hnl : c.nl = 0
-        · simp [hnl, countNL, rSP, rNL]
-        · have : min c.nl 2 ≠ 0 := by omega
-          refine ⟨?_, ?_⟩
-          · simp only [hnl, ↓reduceIte]
-            intro h
-            have := congrArg countNL h
-            rw [countNL_append, countNL_append, countNL_nlsN, countNL_tabsN, hbl] at this
-            simp [countNL] at this; omega
-          · simp only [hnl, ↓reduceIte, countNL_append, countNL_nlsN, countNL_tabsN, hbl]; omega
-      cases k with
-      | plain =>
-        simp only [Bool.and_eq_true, Bool.not_eq_true', List.isEmpty_eq_false_iff] at hcond
-        cases hk : c.kind with
-        | plain => simpa [canonSep, hk] using hplainlike (braceLead _ c) (countNL_braceLead _ c) (by omega)
-        | dq => simpa [canonSep, hk] using hplainlike (braceLead _ c) (countNL_braceLead _ c) (by omega)
-        | cmt => simpa [canonSep, hk] using hplainlike (braceLead _ c) (countNL_braceLead _ c) (by omega)
+    · -- non-empty, and newline iff newline (a comment right after `{` is moved to the next line)
+      by_cases hoc : k = .opn ∧ c.kind = .cmt
+      · obtain ⟨rfl, hkc⟩ := hoc
+        exact ⟨by simp [canonSep], Or.inl ⟨rfl, hkc⟩⟩
+      · suffices h : canonSep (some k) N c ≠ [] ∧ (0 < countNL (canonSep (some k) N c) ↔ 0 < c.nl) from
+          ⟨h.1, Or.inr h.2⟩
+        have hplainlike : ∀ (bl : List Rune) (hbl : countNL bl = 0) (hsome : c.nl = 0 ∨ 0 < c.nl),
+            (if c.nl = 0 then [rSP] else bl ++ (nlsN (min c.nl 2) ++ tabsN N)) ≠ [] ∧
+            (0 < countNL (if c.nl = 0 then [rSP] else bl ++ (nlsN (min c.nl 2) ++ tabsN N)) ↔ 0 < c.nl) := by
+          intro bl hbl _
+          by_cases hnl : c.nl = 0
+          · simp [hnl, countNL, rSP, rNL]
+          · have : min c.nl 2 ≠ 0 := by omega
+            refine ⟨?_, ?_⟩
+            · simp only [hnl, ↓reduceIte]
+              intro h
+              have := congrArg countNL h
+              rw [countNL_append, countNL_append, countNL_nlsN, countNL_tabsN, hbl] at this
+              simp [countNL] at this; omega
+            · simp only [hnl, ↓reduceIte, countNL_append, countNL_nlsN, countNL_tabsN, hbl]; omega
+        cases k with
+        | plain =>
+          simp only [Bool.and_eq_true, Bool.not_eq_true', List.isEmpty_eq_false_iff] at hcond
+          cases hk : c.kind with
+          | plain => simpa [canonSep, hk] using hplainlike (braceLead _ c) (countNL_braceLead _ c) (by omega)
+          | dq => simpa [canonSep, hk] using hplainlike (braceLead _ c) (countNL_braceLead _ c) (by omega)
+          | cmt => simpa [canonSep, hk] using hplainlike (braceLead _ c) (countNL_braceLead _ c) (by omega)
+          | opn =>
+            rw [hk] at hcond
+            simp only [beq_iff_eq] at hcond
+            simp [canonSep, hk, hcond.2, countNL, rSP, rNL]
+          | cls =>
+            rw [hk] at hcond
+            simp only [decide_eq_true_eq] at hcond
+            simp only [canonSep, hk, countNL, countNL_tabsN]
+            exact ⟨by simp, by simp; omega⟩
+        | dq =>
+          simp only [Bool.and_eq_true, Bool.not_eq_true', List.isEmpty_eq_false_iff] at hcond
+          cases hk : c.kind with
+          | plain => simpa [canonSep, hk] using hplainlike (braceLead _ c) (countNL_braceLead _ c) (by omega)
+          | dq => simpa [canonSep, hk] using hplainlike (braceLead _ c) (countNL_braceLead _ c) (by omega)
+          | cmt => simpa [canonSep, hk] using hplainlike (braceLead _ c) (countNL_braceLead _ c) (by omega)
+          | opn =>
+            rw [hk] at hcond
+            simp only [beq_iff_eq] at hcond
+            simp [canonSep, hk, hcond.2, countNL, rSP, rNL]
+          | cls =>
+            rw [hk] at hcond
+            simp only [decide_eq_true_eq] at hcond
+            simp only [canonSep, hk, countNL, countNL_tabsN]
+            exact ⟨by simp, by simp; omega⟩
         | opn =>
-          rw [hk] at hcond
-          simp only [beq_iff_eq] at hcond
-          simp [canonSep, hk, hcond.2, countNL, rSP, rNL]
-        | cls =>
-          rw [hk] at hcond
-          simp only [decide_eq_true_eq] at hcond
-          simp only [canonSep, hk, countNL, countNL_tabsN]
+          simp only [Bool.and_eq_true, Bool.or_eq_true, decide_eq_true_eq, beq_iff_eq] at hcond
+          have hnl : c.nl ≥ 1 := by
+            rcases hcond.1 with h | h
+            · exact h
+            · exact absurd ⟨rfl, h.1⟩ hoc
+          simp only [canonSep, countNL, countNL_tabsN]
           exact ⟨by simp, by simp; omega⟩
-      | dq =>
-        simp only [Bool.and_eq_true, Bool.not_eq_true', List.isEmpty_eq_false_iff] at hcond
-        cases hk : c.kind with
-        | plain => simpa [canonSep, hk] using hplainlike (braceLead _ c) (countNL_braceLead _ c) (by omega)
-        | dq => simpa [canonSep, hk] using hplainlike (braceLead _ c) (countNL_braceLead _ c) (by omega)
-        | cmt => simpa [canonSep, hk] using hplainlike (braceLead _ c) (countNL_braceLead _ c) (by omega)
-        | opn =>
-          rw [hk] at hcond
-          simp only [beq_iff_eq] at hcond
-          simp [canonSep, hk, hcond.2, countNL, rSP, rNL]
         | cls =>
-          rw [hk] at hcond
-          simp only [decide_eq_true_eq] at hcond
-          simp only [canonSep, hk, countNL, countNL_tabsN]
-          exact ⟨by simp, by simp; omega⟩
-      | opn =>
-        simp only [Bool.and_eq_true, decide_eq_true_eq] at hcond
-        simp only [canonSep, countNL, countNL_tabsN]
-        exact ⟨by simp, by simp; omega⟩
-      | cls =>
-        simp only [Bool.and_eq_true, decide_eq_true_eq, bne_iff_ne, ne_eq] at hcond
-        cases hk : c.kind with
-        | plain => simpa [canonSep, hk] using hplainlike (braceLead _ c) (countNL_braceLead _ c) (by omega)
-        | dq => simpa [canonSep, hk] using hplainlike (braceLead _ c) (countNL_braceLead _ c) (by omega)
-        | cmt => simpa [canonSep, hk] using hplainlike (braceLead _ c) (countNL_braceLead _ c) (by omega)
-        | opn => exact absurd hk hcond.2
-        | cls =>
-          simp only [canonSep, hk, countNL, countNL_tabsN]
-          exact ⟨by simp, by simp; omega⟩
-      | cmt =>
-        simp only [Bool.and_eq_true, beq_iff_eq] at hcond
-        have hnl : 0 < c.nl := by
-          unfold Chunk.nl
-          cases hcs : c.sep with
-          | nil => rw [hcs] at hcond; simp at hcond
-          | cons x ws =>
-            rw [hcs] at hcond
-            simp only [List.head?_cons, Option.some.injEq] at hcond
-            simp [countNL, hcond.1]; omega
-        simp only [canonSep]
-        split
-        · exact ⟨by simp, by simp [countNL]; omega⟩
-        · exact ⟨by simp, by simp [countNL]; omega⟩
+          simp only [Bool.and_eq_true, decide_eq_true_eq, bne_iff_ne, ne_eq] at hcond
+          cases hk : c.kind with
+          | plain => simpa [canonSep, hk] using hplainlike (braceLead _ c) (countNL_braceLead _ c) (by omega)
+          | dq => simpa [canonSep, hk] using hplainlike (braceLead _ c) (countNL_braceLead _ c) (by omega)
+          | cmt => simpa [canonSep, hk] using hplainlike (braceLead _ c) (countNL_braceLead _ c) (by omega)
+          | opn => exact absurd hk hcond.2
+          | cls =>
+            simp only [canonSep, hk, countNL, countNL_tabsN]
+            exact ⟨by simp, by simp; omega⟩
+        | cmt =>
+          simp only [Bool.and_eq_true, beq_iff_eq] at hcond
+          have hnl : 0 < c.nl := by
+            unfold Chunk.nl
+            cases hcs : c.sep with
+            | nil => rw [hcs] at hcond; simp at hcond
+            | cons x ws =>
+              rw [hcs] at hcond
+              simp only [List.head?_cons, Option.some.injEq] at hcond
+              simp [countNL, hcond.1]; omega
+          simp only [canonSep]
+          split
+          · exact ⟨by simp, by simp [countNL]; omega⟩
+          · exact ⟨by simp, by simp [countNL]; omega⟩
     · cases hk
       simp only [canonSep]
       try (split <;> rfl)
@@ -654,9 +667,14 @@ theorem good_canon : ∀ (cs : List Chunk) (prev : Option Kind) (N : Nat), goodF
       exact ⟨by rw [(hprops.2.2.1 rfl).1]; rfl, hcond.2⟩
     | some k =>
       obtain ⟨hne, hiff0⟩ := hprops.2.1 (by simp)
-      have hiff : 0 < (⟨canonSep (some k) N c, c.word⟩ : Chunk).nl ↔ 0 < c.nl := hiff0
+      have hiff : k ≠ .opn → (0 < (⟨canonSep (some k) N c, c.word⟩ : Chunk).nl ↔ 0 < c.nl) := by
+        intro hk
+        rcases hiff0 with h | h
+        · exact absurd (Option.some.inj h.1) hk
+        · exact h
       cases k with
       | plain =>
+        have hiff := hiff (by decide)
         simp only [Bool.and_eq_true, Bool.not_eq_true', List.isEmpty_eq_false_iff] at hcond ⊢
         refine ⟨hne, ?_⟩
         cases hk : c.kind with
@@ -672,6 +690,7 @@ theorem good_canon : ∀ (cs : List Chunk) (prev : Option Kind) (N : Nat), goodF
           have := hcond.2
           simp only [decide_eq_true_eq]; omega
       | dq =>
+        have hiff := hiff (by decide)
         simp only [Bool.and_eq_true, Bool.not_eq_true', List.isEmpty_eq_false_iff] at hcond ⊢
         refine ⟨hne, ?_⟩
         cases hk : c.kind with
@@ -687,11 +706,13 @@ theorem good_canon : ∀ (cs : List Chunk) (prev : Option Kind) (N : Nat), goodF
           have := hcond.2
           simp only [decide_eq_true_eq]; omega
       | opn =>
-        simp only [Bool.and_eq_true, decide_eq_true_eq] at hcond
-        have := hcond.1
-        simp only [Bool.and_eq_true, decide_eq_true_eq]
-        exact ⟨by omega, hcond.2⟩
+        simp only [Bool.and_eq_true] at hcond ⊢
+        refine ⟨?_, hcond.2⟩
+        have : (⟨canonSep (some .opn) N c, c.word⟩ : Chunk).nl ≥ 1 := by
+          simp only [nl_mk, canonSep, countNL]; simp
+        simp [this]
       | cls =>
+        have hiff := hiff (by decide)
         simp only [Bool.and_eq_true, decide_eq_true_eq] at hcond
         have := hcond.1
         simp only [Bool.and_eq_true, decide_eq_true_eq]
@@ -874,6 +895,23 @@ theorem gOf_true_sep (sep sep' w : List Rune) (cs : List Chunk) (acc : Bool) :
   · exact gOf_true_irrel cs _ _
   · rfl
 
+/-- the word after a comment starts a new line whatever came before the comment -/
+theorem gOf_after_cmt : ∀ (cs : List Chunk) (first acc acc' : Bool), goodFrom (some .cmt) cs = true →
+    gOf first acc cs = gOf first acc' cs
+  | [], _, _, _, _ => rfl
+  | c :: cs, first, acc, acc', hg => by
+    simp only [goodFrom, Bool.and_eq_true, beq_iff_eq] at hg
+    have hnl : decide (0 < c.nl) = true := by
+      unfold Chunk.nl
+      cases hcs : c.sep with
+      | nil => rw [hcs] at hg; simp at hg
+      | cons x ws =>
+        rw [hcs] at hg
+        have := hg.1.2.1
+        simp only [List.head?_cons, Option.some.injEq] at this
+        simp [countNL, this]; omega
+    simp only [gOf, hnl, Bool.or_true]
+
 theorem gOf_canon : ∀ (cs : List Chunk) (prev : Option Kind) (N : Nat) (first acc : Bool), goodFrom prev cs = true →
     gOf first acc (canon prev N cs) = gOf first acc cs
   | [], _, _, _, _, _ => rfl
@@ -881,12 +919,22 @@ theorem gOf_canon : ∀ (cs : List Chunk) (prev : Option Kind) (N : Nat) (first 
     have hprops := canonSep_props (N := N) hg
     have hg' : goodFrom (some c.kind) cs = true := by
       simp only [goodFrom, Bool.and_eq_true] at hg; exact hg.2
+    by_cases hoc : prev = some .opn ∧ c.kind = .cmt
+    · -- a comment right after `{`: it moves to the next line, but the token after a comment
+      -- starts a new line anyway
+      have hcm : isCmtW c.word = true := (kind_cmt_iff c).mp hoc.2
+      simp only [canon, gOf, hcm, ↓reduceIte]
+      rw [gOf_canon cs _ _ _ _ hg']
+      exact gOf_after_cmt cs _ _ _ (by rw [hoc.2] at hg'; exact hg')
     have hbit : decide (0 < (⟨canonSep prev N c, c.word⟩ : Chunk).nl) = decide (0 < c.nl) := by
       cases prev with
       | none =>
         obtain ⟨h1, h2⟩ := hprops.2.2.1 rfl
         rw [h1, h2]; rfl
-      | some k => exact decide_eq_decide.mpr (hprops.2.1 (by simp)).2
+      | some k =>
+        rcases (hprops.2.1 (by simp)).2 with h | h
+        · exact absurd h hoc
+        · exact decide_eq_decide.mpr h
     simp only [canon, gOf]
     rw [hbit]
     split
